@@ -233,6 +233,9 @@ int main(int argc, char **argv) {
         if (!strncmp(enc, "pad", 3)) { long np = atol(enc + 3); for (; n < np; n++) fmt[n] = 'x'; enc = strchr(enc, ':') + 1; }
         if (strcmp(enc, "-")) for (int k = 0; enc[2 * k]; k++) { unsigned v; sscanf(enc + 2 * k, "%2x", &v); fmt[n++] = v; } fmt[n] = 0;
         if (ep < 0) return 2;
+        /* a case is replayed as the history it was found in: an accepted, conversion-free format of the same length (hence at the
+         * same address) goes through the same entry point first, so that a verdict cached from an earlier call shows again */
+        { static char neutral[5200]; memset(neutral, 'x', n); neutral[n] = 0; one(wide, ep, neutral); nsig = 0; n_viol = 0; }
         verbose = 1; FILE *keep = stdout; (void)keep;
         one(wide, ep, fmt);
         if (nsig) { fprintf(out, "VERDICT violation %s\n", sigs[0]); return 1; }
